@@ -518,8 +518,9 @@ def check(case):
                                'call(s)' % (label, got_t[:3], len(want_t))))
             continue
         for w, g in zip(want_t, got_t):
-            parts = g.split('|', 3)
-            ent, sig, this, args = parts[0], parts[1], parts[2], parts[3]
+            cut = g.index('|(')  # the entity itself may contain '|' (operator|, operator|=)
+            ent = g[:cut]
+            sig, this, args = g[cut + 1:].split('|', 2)
             if ent != w['entity']:
                 out.append(Failure('C04.entity', '%s: reached %s, declared %s' % (label, ent,
                                                                               w['entity'])))
